@@ -18,6 +18,9 @@ META = {
         'R4': 'downstream witnesses (type-checked only, each with a compiling twin): face_count() on a face-less cell, with_faces() on a cell with faces, struct-literal construction '
               'and clip_by_plane() from another crate are all rejected by the compiler',
         'R5': '1D/2D rejected: ConvexCell::with_faces diverges (panics) for OneD and TwoD before writing anything and returns for ThreeD; the integrator-level with_faces maps it over every cell',
+        'R7': 'face incidence bookkeeping in with_faces: one vertex list per clipping plane; every vertex index is appended to the lists of exactly its three dual planes (dual[0], dual[1], dual[2], '
+              'once each, unconditionally); each list is ordered by sort_face_vertices for its own plane; a face is created for list i iff it is non-empty, with clipping_plane = i, '
+              'vertex_count = len(list i) and vertex_offset = running sum of the previous counts (from 0); the connection array is the in-order concatenation of the lists',
         'R6': 'accessors: clipping_plane/neighbour/shift of face f read the half-space faces[f].clipping_plane; face_vertices(f) is connections[offset .. offset+count] of the same face; '
               'the face decomposition labels its tetrahedra with that same plane index',
     },
@@ -36,7 +39,7 @@ def run(ctx):
     for cfg in ctx.configs_used:
         F = ctx.facts(cfg)
         sfx = '' if cfg == 'default' else '@' + cfg
-        fns = (r1, r2, r3, r4, r5, r6) if cfg == 'default' else (r1, r2, r3, r5, r6)
+        fns = (r1, r2, r3, r4, r5, r6, r7) if cfg == 'default' else (r1, r2, r3, r5, r6, r7)
         for fn in fns:
             rule = 'C15.' + fn.__name__.upper()
             ctx.guarded(rule, 'evaluate' + sfx, lambda: fn(ctx, F, rule, sfx))
@@ -334,3 +337,103 @@ def r6(ctx, F, rule, sfx):
         want = [repr(I.frozen(I.get_field(I.get_index(verts, as_rf(I.get_index(fvv, k, 'usize')), 'voronoi::convex_cell::Vertex'), 'loc'))) for k in (RF.const(0), RF.sym('vi'), RF.sym('vi') + 1)]
         vs = [repr(I.frozen(I.get_index(I.get_field(tet, 'vertices'), RF.const(i)))) for i in range(3)]
         ctx.check(rule, 'face-decomposition-fans-from-first-vertex' + sfx, vs == want, [x[-40:] for x in vs], 'fan (v[0], v[k], v[k+1]) over the face\'s vertex list', where(nb), key_extra='fan')
+
+
+def r7(ctx, F, rule, sfx):
+    wfb = F.body_by_suffix('ConvexCell::with_faces')
+    srt = [x['path'] for x in F.bodies if x['path'].endswith('::sort_face_vertices')]
+    ip = I.Interp(F, no_inline=srt + [x['path'] for x in F.bodies if x['path'].endswith('::transition')])
+    cell = I.St(CC, 'ConvexCell', {'dimensionality': I.St('voronoi::Dimensionality', 'ThreeD', {})}, I.Sym(nf.sym_atom('cell'), CC + '<WithoutFaces>'))
+    ip.call_body(wfb, [cell])
+    ctx.evaluations += ip.evaluations
+    w = where(wfb)
+    fe = [e for e in ip.events if e.body is wfb and e.callee == 'std::vec::from_elem']
+    ok = len(fe) >= 1 and repr(fe[0].fargs[0]).replace(' ', '') == 'array{}' and repr(fe[0].fargs[1]) == 'len(cell.clipping_planes)'
+    ctx.check(rule, 'one-list-per-plane' + sfx, ok, [repr(a)[:50] for a in fe[0].fargs] if fe else 'no vec![..; n]', 'vec![vec![]; self.clipping_planes.len()]', w, key_extra='lists')
+    pushes = [e for e in ip.events if e.body is wfb and e.callee and e.callee.endswith('Vec::<T, A>::push') and e.in_loop]
+    nx = [x for x in next_events(ip, wfb) if x.in_loop]
+    if len(nx) != 1:
+        raise AnalysisIncomplete('with_faces: %d stream reads in the incidence loop' % len(nx))
+    rec, li = loop_record_of(ip, nx[0])
+    sh = stream_shape(I.frozen(rec['init'][li]))
+    ok_stream = sh == ('pair', ('pos', 'enumerate'), ('elem', 'cell.vertices'))
+    ctx.check(rule, 'incidence-loop-over-all-vertices' + sfx, ok_stream, str(sh), 'enumerate(iter(self.vertices))', where(wfb, nx[0].line), key_extra='stream')
+    ks = []
+    for e in pushes:
+        recv = e.args[0]
+        ix = recv.lv.path[-1][1] if isinstance(recv, I.Ref) and recv.lv.path and recv.lv.path[-1][0] == 'i' else None
+        r = resolve_item(ix, nx[0].result, sh) if ix is not None else None
+        val = resolve_item(e.fargs[1], nx[0].result, sh)
+        okv = val is not None and val[0][0] == 'pos' and not val[1]
+        k = None
+        if r is not None and r[0] == ('elem', 'cell.vertices') and len(r[1]) == 1 and r[1][0].startswith('dual'):
+            k = r[1][0]
+        else:
+            at = I.single_atom(ix) if ix is not None else None
+            # dual[k] is elem(vertex.dual, k)
+            if at is not None and at.kind == 'app' and at.name == 'elem':
+                rr = resolve_item(at.args[0], nx[0].result, sh)
+                if rr is not None and rr[0] == ('elem', 'cell.vertices') and rr[1] == ['dual'] and isinstance(at.args[1], RF) and at.args[1].is_const():
+                    k = int(at.args[1].const_value())
+        extra = [g for g in e.guard if not (dtab.is_discr_eq(g) and '::next(' in repr(g))]
+        ks.append(k)
+        ctx.check(rule, 'vertex-appended-to-dual-plane-list:%s%s' % (k, sfx), k is not None and okv and not extra, 'list index %s, value %s, extra guards %d' % (repr(ix)[-40:], repr(e.fargs[1])[-30:], len(extra)),
+                  'lists[vertex.dual[k]].push(vertex position), unconditional', where(wfb, e.line), key_extra='push:%s' % k)
+    ctx.check(rule, 'each-dual-plane-once' + sfx, sorted(str(k) for k in ks) == ['0', '1', '2'], str(ks), 'dual[0], dual[1], dual[2] once each', w, key_extra='dualset')
+    # sorting closure
+    runs = [r for r in ip.closure_runs if any(e.callee in srt for e in r['events'])]
+    ok = len(runs) == 1
+    if ok:
+        r = runs[0]
+        shs = stream_shape(r['stream'])
+        e = [x for x in r['events'] if x.callee in srt][0]
+        a1 = resolve_item(e.fargs[1], r['item'], shs, prefix=())
+        a2 = resolve_item(e.fargs[2], r['item'], shs, prefix=())
+        ok = shs[0] == 'pair' and shs[1][0] == 'pos' and shs[2][0] == 'elem' and a1 is not None and a1[0] == shs[2] and a2 is not None and a2[0][0] == 'pos'
+    ctx.check(rule, 'each-list-sorted-for-its-own-plane' + sfx, ok, '%d sorting closure(s)' % len(runs), 'lists.iter_mut().enumerate().for_each(|(i, l)| self.sort_face_vertices(l, i))', w, key_extra='sort')
+    # face records
+    fruns = [r for r in ip.closure_runs if r['adaptor'] == 'filter_map' and r['body'] is wfb]
+    if len(fruns) != 1:
+        raise AnalysisIncomplete('with_faces: %d face-creating closures' % len(fruns))
+    fr = fruns[0]
+    cl = F.body(fr['closure'])
+    shf = stream_shape(fr['stream'])
+    ip2 = I.Interp(F)
+    off = ip2.ref_to(RF.sym('off'), '&mut usize', mut=True)
+    ups = cl.get('upvars') or []
+    env = I.St('closure:' + cl['path'], None, {0: off} if len(ups) == 1 else {i: off for i in range(len(ups))})
+    item = fr['item']
+    res = ip2.call_closure(env, ip2.ref_to(env, mut=True), I.tup(item), '?')
+    ctx.evaluations += ip2.evaluations
+    after = as_rf(I.read_lv(off.lv))
+    lst = I.get_field(item, 1)
+    ln = RF.atom(nf.app_atom('len', I.frozen(lst)))
+    some = none = None
+    for conds, leaf in cases(res):
+        if isinstance(leaf, I.St) and leaf.variant == 'Some':
+            some = (conds, leaf.fields[0])
+        elif isinstance(leaf, I.St) and leaf.variant == 'None':
+            none = conds
+    okn = none is not None and len(none) == 1 and repr(none[0]) == '(%r == 0)' % ln
+    oks = some is not None and repr(I.get_field(some[1], 'clipping_plane')) == repr(I.get_field(item, 0, 'usize')) and as_rf(I.get_field(some[1], 'vertex_count')) == ln \
+        and repr(I.get_field(some[1], 'vertex_offset')) == 'off'
+    okoff = all(as_rf(dtab.evaluate(after, (lambda b: (lambda leaf: b))(b))) == (RF.sym('off') + (ln if not b else RF.const(0))) or as_rf(dtab.evaluate(after, (lambda b: (lambda leaf: b))(b))) == RF.sym('off') + ln for b in (True, False))
+    init_off = repr(fr['events'][0].fargs) if False else None
+    ctx.check(rule, 'face-created-iff-list-non-empty' + sfx, okn and some is not None, 'None when %s' % ([repr(c) for c in none] if none else '?'), 'None iff the list is empty', where(cl), key_extra='nonempty')
+    ctx.check(rule, 'face-record-fields' + sfx, oks, repr(some[1])[:160] if some else 'no Some arm', 'clipping_plane = slot, vertex_count = len(list), vertex_offset = running offset', where(cl), key_extra='facefields')
+    ctx.check(rule, 'offset-recurrence' + sfx, okoff, 'offset after one item: %r' % (after,), 'offset + len(list) (unchanged for an empty list)', where(cl), key_extra='offset')
+    # initial offset 0: the captured variable's value at closure creation
+    capt = [a for e in ip.events if e.body is wfb and e.callee and e.callee.endswith('Iterator::filter_map') for a in e.fargs[1:]]
+    ok0 = bool(capt) and '{0: &0}' in repr(capt[0]).replace(' ', '').replace('{0:&0}', '{0: &0}')
+    ctx.check(rule, 'offset-starts-at-zero' + sfx, ok0, repr(capt[0])[-40:] if capt else 'no closure', 'let mut offset = 0', w, key_extra='offset0')
+    ok_shape = shf[0] == 'pair' and shf[1][0] == 'pos' and shf[2][0] == 'elem'
+    ctx.check(rule, 'faces-enumerate-every-list' + sfx, ok_shape, str(shf)[:120], 'lists.iter().enumerate()', w, key_extra='facestream')
+    # connections: flatten of the same lists
+    tr = [e for e in ip.events if e.callee and strip_generics(e.callee).endswith('ConvexCell::transition')]
+    if len(tr) != 1:
+        raise AnalysisIncomplete('transition calls: %d' % len(tr))
+    fvc = I.get_field(tr[0].fargs[0], 'face_vertex_connections')
+    ch, src = stream_chain(I.frozen(fvc.fields[0]) if isinstance(fvc, I.St) else fvc)
+    names = [n for n, _ in ch]
+    okc = names[:3] == ['collect', 'flatten', 'into_iter'] and shf[2][0] == 'elem' and (repr(src) in shf[2][1] or shf[2][1] in repr(src) or 'phi' in repr(src))
+    ctx.check(rule, 'connections-are-concatenated-lists' + sfx, okc, '%s over %s' % (' <- '.join(names), repr(src)[:60]), 'lists.into_iter().flatten().collect()', w, key_extra='concat')
